@@ -14,7 +14,7 @@ pub fn def() -> PropDef {
         job_level,
         run_job,
         replay,
-        rule: "complete finite spaces: (a) all 65536 u16 values through OsCode::from_u16/as_u16 (round trip is the identity; nothing above KEY_MAX is a key); (b) the discriminant sets of `enum OsCode` (parser/src/keys/mod.rs) and `enum KeyCode` (keyberon/src/key_code.rs) read from the SOURCE TEXT of the working tree are equal value for value (soundness of the transmute), and every `N => Some(OsCode::X)` arm of from_u16_linux agrees with X's discriminant; (c) every key name in the match arms of str_to_oscode (scraped from source): same code through the real function, and through a real config `(defsrc NAME)(deflayer l NAME)` pressing that code outputs that code; (d) every code 0..767 through the full pipeline in three configs: mapped to itself (named via deflocalkeys when it has no name), transparent on a held second layer, and unmapped with process-unmapped-keys yes: press, one OS auto-repeat, release: the OS code that comes out (press, forwarded repeat, release) equals the one that went in, reserved no-op codes 0x2a4..0x2ad are never sent; (e) mapped-key sets: all defsrc subsets of a 4-key pool x deflayermap inputs subsets of 2 keys x exception lists subsets of 2 keys x process-unmapped-keys {no, yes, all-except}: Cfg.mapped_keys == defsrc + deflayermap inputs (+ all known keys - exceptions). distinct = distinct (case, outcome) classes.",
+        rule: "complete finite spaces: (a) all 65536 u16 values through OsCode::from_u16/as_u16 (round trip is the identity; nothing above KEY_MAX is a key); (b) the discriminant sets of `enum OsCode` (parser/src/keys/mod.rs) and `enum KeyCode` (keyberon/src/key_code.rs) read from the SOURCE TEXT of the working tree are equal value for value (soundness of the transmute), and every `N => Some(OsCode::X)` arm of from_u16_linux agrees with X's discriminant; (c) every key name in the match arms of str_to_oscode (scraped from source): same code through the real function, and through a real config `(defsrc NAME)(deflayer l NAME)` pressing that code outputs that code; (d) every code 0..767 through the full pipeline in three configs: mapped to itself (named via deflocalkeys when it has no name), transparent on a held second layer, and unmapped with process-unmapped-keys yes: press, one OS auto-repeat, release: the OS code that comes out (press, forwarded repeat, release) equals the one that went in, reserved no-op codes 0x2a4..0x2ad are never sent; (e) exception lists written in EVERY order (all ordered selections of 2..4 keys from a 5-key pool spanning low and high codes): no listed key is intercepted; mapped-key sets: all defsrc subsets of a 4-key pool x deflayermap inputs subsets of 2 keys x exception lists subsets of 2 keys x process-unmapped-keys {no, yes, all-except}: Cfg.mapped_keys == defsrc + deflayermap inputs (+ all known keys - exceptions). distinct = distinct (case, outcome) classes.",
         assumptions: &["the OS-level pass-through branch of event_loop (evdev) is not executed; the set it consults (mapped keys) is what is checked", "Linux code space (the build target)"],
         required_level,
         min_outcomes: 3,
@@ -315,6 +315,49 @@ fn job_mapped_keys(st: &mut Stats) {
     let all_known: Vec<OsCode> = (0..767u16).filter_map(OsCode::from_u16).filter(|o| KeyCode::from(*o) != KeyCode::No).collect();
     let osc = |n: &str| kanata_parser::keys::str_to_oscode(n).unwrap();
     let mut n = 0;
+    // exception lists in EVERY order (the list is what the user wrote, not a sorted set): all ordered
+    // selections of 2..4 keys from a pool that spans low and high key codes
+    {
+        let pool = ["ralt", "lctl", "f19", "bspc", "a"];
+        let mut lists: Vec<Vec<&str>> = vec![];
+        fn rec<'a>(pool: &[&'a str], cur: &mut Vec<&'a str>, out: &mut Vec<Vec<&'a str>>) {
+            if cur.len() >= 2 {
+                out.push(cur.clone());
+            }
+            if cur.len() == 4 {
+                return;
+            }
+            for k in pool {
+                if !cur.contains(k) {
+                    cur.push(k);
+                    rec(pool, cur, out);
+                    cur.pop();
+                }
+            }
+        }
+        rec(&pool, &mut vec![], &mut lists);
+        for es in &lists {
+            let cfg = format!("(defcfg process-unmapped-keys (all-except {}))\n(defsrc b)\n(deflayer base b)\n", es.join(" "));
+            st.evaluations += 1;
+            n += 1;
+            match crate::sim::guarded(|| kanata_parser::cfg::new_from_str(&cfg, Default::default())) {
+                Err(p) => {
+                    st.violation(viol("mapped-keys-panic", p, &cfg));
+                    return;
+                }
+                Ok(Err(_)) => st.configs_rejected += 1,
+                Ok(Ok(c)) => {
+                    st.configs_accepted += 1;
+                    let leaked: Vec<&&str> = es.iter().filter(|e| c.mapped_keys.contains(&osc(e))).collect();
+                    if !leaked.is_empty() {
+                        st.violation(viol("mapped-keys/exception-intercepted", format!("process-unmapped-keys (all-except {}): the listed keys {leaked:?} are intercepted all the same", es.join(" ")), &cfg));
+                        return;
+                    }
+                }
+            }
+        }
+        st.count("exception_lists_in_every_order", lists.len() as u64);
+    }
     for dm in 0..16u32 {
         for lmm in 0..4u32 {
             for exm in 0..4u32 {
